@@ -1485,8 +1485,14 @@ fn sol_many_range() -> Option<String> {
         for &(x0, xe) in &[(0.0f64, 5.0f64), (5.0, -1.0)] {
             let s = match solve_ivp(&Osc, x0, xe, &[1.0, 0.0], Options::builder().method(m.clone()).dense_output(true).build()) { Ok(s) => s, Err(e) => return Some(format!("{:?}: {:?}", m, e)) };
             let inside: Vec<f64> = (0..=30).map(|i| x0 + (xe - x0) * i as f64 / 30.0).collect();
-            match s.sol_many(&inside) { Ok(v) => { for (k, t) in inside.iter().enumerate() { if s.sol(*t).ok().as_ref() != Some(&v[k]) { return Some(format!("{:?} on [{}, {}]: sol_many and sol differ at t = {:e}", m, x0, xe, t)); } } }
-                Err(e) => return Some(format!("{:?} on [{}, {}]: sol_many over 31 times of the span fails with {:?}", m, x0, xe, e)) }
+            let mut rev = inside.clone(); rev.reverse();
+            let mut mixed = inside.clone(); mixed.swap(3, 27); mixed.swap(10, 11); mixed.swap(0, 30);
+            for (what, grid) in [("in the order of integration", &inside), ("against the order of integration", &rev), ("unsorted", &mixed)] {
+                let r = std::panic::catch_unwind(std::panic::AssertUnwindSafe(|| s.sol_many(grid)));
+                match r { Err(_) => return Some(format!("{:?} on [{}, {}]: sol_many panics for 31 times of the span given {}", m, x0, xe, what)),
+                    Ok(Ok(v)) => { for (k, t) in grid.iter().enumerate() { if s.sol(*t).ok().as_ref() != Some(&v[k]) { return Some(format!("{:?} on [{}, {}]: sol_many ({}) and sol differ at t = {:e}", m, x0, xe, what, t)); } } }
+                    Ok(Err(e)) => return Some(format!("{:?} on [{}, {}]: sol_many over 31 times of the span ({}) fails with {:?}", m, x0, xe, what, e)) }
+            }
             for out in [x0 - (xe - x0), xe + 0.5 * (xe - x0)] {
                 let mut ts = inside.clone(); ts.insert(7, out);
                 let r = std::panic::catch_unwind(std::panic::AssertUnwindSafe(|| s.sol_many(&ts)));
